@@ -34,7 +34,8 @@ PROPS = {
     "C20": {"families": ["dep_static", "dep_domains", "dep_create_domain", "dep_names", "dep_chain"], "oracle": "struct"},
     "C08": {"families": ["cleanup_mappings", "cleanup_superseeded", "cleanup_apply", "cleanup_execute_core", "cleanup_execute"], "oracle": "sem"},
     "C09": {"families": ["unused_anonymize", "unused_usage", "unused_project", "unused_remove", "unused_single_copies", "unused_execute_core", "unused_execute"], "oracle": "sem"},
-    "C10": {"families": ["duplication_replace_assignments", "duplication_anonymize", "duplication_occurrences", "duplication_filter", "duplication_collect", "duplication_rebuild", "duplication_process", "duplication_execute"], "oracle": "sem"},
+    "C10": {"families": ["duplication_replace_assignments", "duplication_anonymize", "duplication_occurrences", "duplication_filter", "duplication_collect", "duplication_rebuild", "duplication_process", "duplication_execute"], "oracle": "sem", "quick_light": True,
+            "quick_families": ["duplication_replace_assignments", "duplication_anonymize", "duplication_rebuild", "duplication_process", "duplication_execute"]},
     "C11": {"families": ["symmetry_replace_simple", "symmetry_inequalities", "symmetry_equal_symbols", "symmetry_groups", "symmetry_bundle", "symmetry_process", "symmetry_execute"], "oracle": "sem"},
     "C12": {"families": ["minmax_analysis", "minmax_simple_translation", "minmax_chain_translation", "minmax_process_rule", "minmax_split_element", "minmax_replace_minimize", "minmax_replace_sum", "minmax_execute"], "oracle": "sem"},
     "C13": {"families": ["sumchains_agg_analytics", "sumchains_at_most_rule", "sumchains_init", "sumchains_get_trigger", "sumchains_element_passes", "sumchains_replace_elements", "sumchains_get_var", "sumchains_replace_optimize", "sumchains_execute"], "oracle": "sem"},
@@ -53,7 +54,13 @@ PROPS = {
 def inputs_for(prop, tier, rng):
     n = THOROUGH_GEN if tier == "thorough" else QUICK_GEN
     base = inp_mod.curated() + inp_mod.harvest()
-    twist = inp_mod.neighbourhood(base, rng.randrange(1 << 30), THOROUGH_TWIST if tier == "thorough" else QUICK_TWIST)
+    n_twist = THOROUGH_TWIST if tier == "thorough" else QUICK_TWIST
+    if tier != "thorough" and PROPS[prop].get("quick_light"):
+        # the duplication families enumerate literal subsets (expensive per program): the every-change tier takes the
+        # whole curated corpus, every third repo test program and fewer generated / neighbourhood programs
+        base = inp_mod.curated() + inp_mod.harvest()[::3]
+        n, n_twist = 40, 60
+    twist = inp_mod.neighbourhood(base, rng.randrange(1 << 30), n_twist)
     return base + inp_mod.generated(rng.randrange(1 << 30), n) + twist
 
 
